@@ -111,6 +111,7 @@ type Contract struct {
 	modular  bool
 	pure     bool
 	trusted  string
+	assumes  []string // stated hypotheses that are facts about the outside world (listed under assumptions in the evidence)
 	lemma    bool // stand-alone lemma: no function body
 	params   []qvar
 	fn       *ssa.Function
@@ -755,6 +756,10 @@ func (cs *ContractSet) parseFile(pkg, path, src string) error {
 		case "trusted":
 			cur.trusted = rest
 			cur.modular = true
+		case "assumes":
+			// documentation of a hypothesis that is meant as an assumed fact (not a condition the
+			// caller establishes): it is reported with the evidence of every run that proves the contract
+			cur.assumes = append(cur.assumes, rest)
 		case "opt":
 			f := strings.Fields(rest)
 			if len(f) == 1 {
